@@ -16,8 +16,33 @@ VF = ["Once/OnceModel.v", "Once/OnceProofs.v"]
 POINTS = ["once.read", "once.cas", "once.done", "once.wait.read"]
 
 
+def private_interp(ctx):
+    """build harness/lib_interp.c against vlib.REPO and keep a private copy: the shared cache build/li is
+    pruned by concurrent checks of other properties"""
+    import shutil
+    last = None
+    for _ in range(4):
+        exe = trace.build_interp()
+        mine = os.path.join(ctx.dir, "interp", os.path.basename(exe))
+        try:
+            os.makedirs(os.path.dirname(mine), exist_ok=True)
+            if not os.path.exists(mine):
+                shutil.copy2(exe, mine + ".tmp%d" % os.getpid())
+                os.rename(mine + ".tmp%d" % os.getpid(), mine)
+            for f in os.listdir(os.path.dirname(mine)):
+                if f != os.path.basename(mine):
+                    try:
+                        os.remove(os.path.join(os.path.dirname(mine), f))
+                    except OSError:
+                        pass
+            return mine
+        except (OSError, IOError) as e:
+            last = e
+    raise vlib.BuildError("lib_interp disappeared while copying: %s" % last)
+
+
 def build(ctx):
-    exe = trace.build_interp()
+    exe = private_interp(ctx)
     drv = vlib.build_driver("C14", "Extract_C14.v", "driver_C14.ml", VF)
     return exe, drv
 
@@ -230,10 +255,10 @@ def gen_program(r, workers, ncallers=None, kinds=None):
         objs += ["o%d once %d" % (k, k), "cnt%d var 0" % k, "flag%d var 0" % k]
         s = []
         if kind == "empty":
-            s = ["add cnt%d 1" % k] if r.chance(1, 2) else []
-            if not s:
-                # the empty script: the counter is not touched at all
-                objs[-2] = "cnt%d var 1" % k
+            # the empty routine touches nothing: counter and flag start at their final values
+            s = []
+            objs[-2] = "cnt%d var 1" % k
+            objs[-1] = "flag%d var 1" % k
         elif kind == "yield":
             s = ["yield"] * r.rng(1, 3) + ["add cnt%d 1" % k] + ["yield"] * r.below(2)
         elif kind == "mutex":
@@ -250,11 +275,7 @@ def gen_program(r, workers, ncallers=None, kinds=None):
             nxt += 1
             threads[t] = ["lock m0", "yield", "unlock m0"]
             s = ["yield", "lock m0", "add cnt%d 1" % k, "unlock m0", "create %d" % t, "yield", "join %d" % t]
-        if kind == "empty" and not s:
-            s = ["set flag%d 1" % k] if r.chance(1, 2) else []
-            if not s:
-                objs[-1] = "flag%d var 1" % k
-        else:
+        if kind != "empty":
             s.append("set flag%d 1" % k)
         scripts.append(s)
 
@@ -296,7 +317,7 @@ def gen_program(r, workers, ncallers=None, kinds=None):
 
 
 def text_of(p, workers, seed, pswitch):
-    c = trace.case_text(workers, seed, p["objs"], p["threads"], scripts=p["scripts"], pswitch=pswitch)
+    c = trace.case_text(workers, seed, p["objs"], p["threads"], scripts=p["scripts"], pswitch=pswitch, maxsteps=30000)
     return c + "".join("# expect %d %d %d\n" % e for e in p["expect"])
 
 
@@ -310,6 +331,17 @@ def gen_cases(ctx, n):
             cases.append({"family": "+".join(sorted(set(p["kinds"]))), "workers": workers, "ncallers": p["ncallers"],
                           "text": text_of(p, workers, r.rng(1, 1 << 30), r.choice([10, 30, 50, 70, 90]))})
     return cases
+
+
+def run_until_failure(ctx, exe, drv, cases, chunk=40):
+    """run_cases in chunks; stop after the first chunk in which the property oracle fails (a broken library
+    can make every further run slow)"""
+    out = []
+    for i in range(0, len(cases), chunk):
+        out += run_cases(ctx, exe, drv, cases[i:i + chunk], tag="c%02d_" % (i // chunk))
+        if any(o["oracle"] for o in out):
+            break
+    return out
 
 
 def load_corpus():
@@ -362,7 +394,7 @@ def search_oracle_failure(ctx, exe, drv, case, tries):
         p = gen_program(r, w, ncallers=r.rng(3, 6))
         alts.append({"family": "search", "workers": w, "ncallers": p["ncallers"],
                      "text": text_of(p, w, r.rng(1, 1 << 30), r.choice([50, 70, 90]))})
-    for o in run_cases(ctx, exe, drv, alts, tag="s"):
+    for o in run_until_failure(ctx, exe, drv, alts):
         if o["oracle"]:
             return o
     return None
@@ -393,12 +425,12 @@ def run(ctx):
     exe, drv = build(ctx)
     n = 150 if not ctx.thorough else 3000
     cases = load_corpus() + gen_cases(ctx, n)
-    results = run_cases(ctx, exe, drv, cases)
+    results = run_until_failure(ctx, exe, drv, cases)
     hist, spins, dist, verd, st, callers = summarize(results)
     bad_oracle = [o for o in results if o["oracle"]]
     bad_model = [o for o in results if o["fail"]]
     ctx.cov["correspondence"] = {
-        "cases": len(cases), "model_blocks_replayed": sum(len(o["model"]) for o in results),
+        "cases": len(results), "cases_generated": len(cases), "model_blocks_replayed": sum(len(o["model"]) for o in results),
         "model_events_replayed": sum(int(v.split()[1]) for o in results for v in o["model"] if v.startswith("ok")),
         "disagreements": len(bad_model), "oracle_failures": len(bad_oracle),
         "input_distribution": dist, "concurrent_callers_distribution": callers, "verdicts": verd,
